@@ -85,6 +85,7 @@ Fixpoint isize (i : item) : nat :=
   | Grp _ b _ => S (fold_right (fun i n => isize i + n) 0 b)
   | Mac _ _ _ a => S (fold_right (fun i n => isize i + n) 0 a)
   | Math _ _ b _ => S (fold_right (fun i n => isize i + n) 0 b)
+  | Cmt _ _ _ => 1
   end.
 Definition lsize (l : list item) := fold_right (fun i n => isize i + n) 0 l.
 Lemma isize_pos i : 1 <= isize i. Proof. destruct i; cbn; lia. Qed.
@@ -101,6 +102,9 @@ Lemma space_123 : is_space 123 = false. Proof. vm_compute. reflexivity. Qed.
 Lemma space_125 : is_space 125 = false. Proof. vm_compute. reflexivity. Qed.
 Lemma space_92 : is_space 92 = false. Proof. vm_compute. reflexivity. Qed.
 Lemma space_36 : is_space 36 = false. Proof. vm_compute. reflexivity. Qed.
+
+Lemma ilen_cmt ws text post : ilen (Cmt ws text post) = length ws + 1 + length text + length post.
+Proof. unfold ilen. cbn [unparse_item]. rewrite app_length. cbn [length]. rewrite app_length. lia. Qed.
 
 Lemma opts_ok_grp ps : opts_ok ps (grp_opts ps).
 Proof.
@@ -320,7 +324,7 @@ Section Sim.
     - cbn [ok_args] in OKA. apply andb_true_iff in OKA. destruct OKA as [OKA OKR].
       apply andb_true_iff in OKA. destruct OKA as [KD OKI].
       destruct (a_kind spc) as [aps| | |] eqn:AK; try discriminate.
-      destruct a as [|ws b tr| |]; try discriminate. destruct ws; [|discriminate].
+      destruct a as [|ws b tr| | |]; try discriminate. destruct ws; [|discriminate].
       set (ps' := apply_adelta ps (a_delta spc)) in *.
       assert (SD' : Std cx ps') by (apply std_adelta; exact SD).
       rewrite ok_item_grp in OKI. apply andb_true_iff in OKI. destruct OKI as [OKI OKB].
@@ -365,7 +369,29 @@ Section Sim.
     R (k + 8 * ilen i) (TCollect ps o st pos) = r.
   Proof.
     intros IH i ps o st pos fol k r SZ SD OK NR OKI SK H. pose proof (std_view_of cx ps SD) as V.
-    destruct i as [ws cs|ws b tr|ws name post args|ws mk b tr].
+    destruct i as [ws cs|ws b tr|ws name post args|ws mk b tr|ws text post]; cycle 4.
+    - (* comment *)
+      cbn [ok_item] in OKI. apply andb_true_iff in OKI. destruct OKI as [OKI FO].
+      apply andb_true_iff in OKI. destruct OKI as [OKI NLs].
+      apply andb_true_iff in OKI. destruct OKI as [OKI Wp].
+      apply andb_true_iff in OKI. destruct OKI as [W NT].
+      apply negb_true_iff in NT. apply negb_true_iff in FO.
+      assert (EW : exists w, post = 10%N :: w).
+      { destruct post as [|c w]; [discriminate|]. destruct c as [|q]; try discriminate.
+        repeat (destruct q as [q|q|]; try discriminate). exists w. reflexivity. }
+      assert (SK' : skipn pos s = ws ++ 37%N :: text ++ post ++ fol).
+      { cbn [unparse_item] in SK. rewrite <- !app_assoc in SK. cbn [app] in SK. rewrite <- !app_assoc in SK. exact SK. }
+      pose proof (skipn_shift _ _ _ _ SK') as SK0.
+      assert (T : impl_peek ps s pos
+                  = TokOk (Tokenizer.mk TkComment text (pos + length ws)
+                              (pos + length ws + 1 + length text + length post) ws post)).
+      { rewrite (impl_peek_dispatch ps s pos ws 37%N _ W SK' space_37).
+        apply (dispatch_comment cx ps V s _ ws text post fol SK0 NT Wp EW). apply otest_hd_not. exact FO. }
+      cbn [absorb_item item_ws node_of] in H. rewrite ilen_cmt in H |- *.
+      apply (lift (S k)); [|exact NR|lia].
+      apply (rule_comment s cx k ps o st pos ws text _ post r OK T).
+      replace (pos + (length ws + 1 + length text + length post))
+        with (pos + length ws + 1 + length text + length post) in H by lia. exact H.
     - (* text *)
       cbn [ok_item] in OKI. apply andb_true_iff in OKI. destruct OKI as [OKI IN].
       apply andb_true_iff in OKI. destruct OKI as [W NE]. destruct cs as [|c cs]; [discriminate|].
